@@ -40,6 +40,14 @@ CHECKS = {
             "runtime monitor: one ASan/UBSan process per content-file mutant (bits, truncations, bytes, field-aware varints/tags) with unchanged-state oracle; kill enumeration over every content-file system call through the LD_PRELOAD shim with old-or-new-version oracle and an ordering spec on the recorded event log",
             "Fault enumeration: every single bit and every truncation length of content files of 3 (quick) / 12 (thorough) shapes covering format 2 and 3 and all record kinds, plus field-aware damage aimed at length/count/position fields; each mutant is one process under ASan+UBSan and must be rejected with nothing modified. Every content-file system call of test-rewrite/touch/sync is a kill point (before/after/mid-write) for 1..7 copies; each copy must remain a complete old or new version. The save protocol (O_EXCL tmp, fsync, re-read to EOF, rename) is checked on every recorded event log.",
             "Kill = process death, not power loss (fsync is checked only as an ordering event). Multi-byte random damage passing the CRC by chance (2^-32) would be reported as accepted. Mutation positions for byte-value mutants are strided in quick."),
+    "C10": ("exploration",
+            "runtime monitor: byte comparison of content files before/after test-rewrite under a frozen clock, list/status dumps per content copy compared with an independent decoder, plus encoder-built content files with boundary values fed to the real loader/writer",
+            "Reached states (interrupted and partial syncs, bad/rehash/just-synced marks, holes, links, empty dirs, arbitrary-byte names, all hash sizes, both format versions) and constructed states (values at varint boundaries, sizes to 2^40, inode 2^64-1, nsec invalid/0/max, deleted runs, long and short runs) must round-trip byte-exactly through load+save, print exactly the decoded values in list -l / status -G -l, and be independent of which copy is read first.",
+            "Positions bounded by 2^21+8 (memory). The decoder/encoder pair is my own (self-checked: encode(decode(x)) == x on every tool-written file); constructed files are only claimed valid in the writer's normal form."),
+    "C11": ("exploration",
+            "runtime monitor with a reference model: the harness performs every file-system operation itself and keeps a model; diff exit status, list -l, independently decoded content (empty dirs, block states) and frozen-reference hashes of every recorded block are compared with the model after each sync",
+            "Random operation sequences over several rounds per case, with and without usable inodes, five scan orders, parallel and sequential scan, tmpfs and ext4 scratch. Before each sync diff must exit 2 exactly when the model differs from the last recorded state; after it diff must be clean, list must equal the model, check must pass and every recorded block hash must equal the reference hash of the bytes the harness wrote - which settles 'read again rather than trusted' without trusting the tool.",
+            "Sequences are sampled. Hard-link groups are compared up to the choice of which name is recorded as the file. Directory-only changes and symlink time-stamps are outside the documented scope of diff/list."),
     "C12": ("exploration",
             "runtime monitoring with two independent observers per command: before/after snapshot (type, size, mtime, inode, sha-256) of data, parity, content, pool and array root, and strace -f of the real binary reduced to file-system-changing system calls; both compared with a per-command table of allowed targets and with fix's own fixed/status tags",
             "Each command x option combination is run on healthy, unsynced, damaged and partially lost arrays; every changed path and every mutating system call must fall into the command's documented set (read-only commands: log+lock only; scrub: +content; sync: +parity, never data; fix: only paths it reports, never content; pool: pool dir only; touch: content + sub-second part of zero time-stamps).",
